@@ -543,7 +543,7 @@ RULES.append(p10)
 
 @rule("MC", doc="must-call census: no function of this property's files has gained an early exit in front of work it always did (every crate-local call that lay on all paths to a normal return in the reviewed tree still does)")
 def mc(ctx):
-    C.must_call_census(ctx, ctx.lib(), ['src/egraph/rebuild.rs', 'src/egraph/union.rs', 'src/egraph/add.rs', 'src/egraph/mod.rs', 'src/group/mod.rs'])
+    C.must_call_census(ctx, ctx.lib(), ['src/egraph/rebuild.rs', 'src/egraph/union.rs', 'src/egraph/add.rs', 'src/egraph/mod.rs', 'src/group/mod.rs', 'src/egraph/find.rs'])
 
 
 RULES.append(mc)
